@@ -1,0 +1,31 @@
+//go:build verif
+
+package tcpassembly
+
+// Read-only accessors for the verification harness (build tag verif only).
+
+// VerifPagesUsed reports the number of pages the assembler's page cache has handed out.
+func VerifPagesUsed(a *Assembler) int { return a.pc.used }
+
+// VerifPoolStats reports the number of live connections and the free-list length of a pool.
+func VerifPoolStats(p *StreamPool) (conns, free int) {
+	p.mu.RLock()
+	defer p.mu.RUnlock()
+	return len(p.conns), len(p.free)
+}
+
+// VerifConnPages walks every live connection and returns, per connection, the pages actually
+// linked into its list and the value of its pages counter.
+func VerifConnPages(p *StreamPool) (linked, counted []int) {
+	for _, c := range p.connections() {
+		c.mu.Lock()
+		n := 0
+		for pg := c.first; pg != nil; pg = pg.next {
+			n++
+		}
+		linked = append(linked, n)
+		counted = append(counted, c.pages)
+		c.mu.Unlock()
+	}
+	return
+}
